@@ -811,8 +811,8 @@ def model_case(case, impl):
     mc = {'op': 'heap_history', 'const': case['const'], 'probe': case['probe'], 'arrays': arrays,
           'dicts': case['dicts'], 'steps': steps}
     if os.environ.get('C19_FIXES') is not None:
-        # scratch-worktree runs against the pending patches: the model version that contains the named repairs
-        # (normal runs use Fixes.current of lean/Synphot/Core/Heap.lean)
+        # scratch-worktree runs against another code version: the model version that contains exactly the named
+        # repairs (normal runs use Fixes.current of lean/Synphot/Core/Heap.lean = all three)
         mc['fixes'] = os.environ['C19_FIXES']
     return mc
 
